@@ -8,7 +8,7 @@ TECHNIQUE = ("trace specification checked offline over a history recorded with a
 RULE = ("one case = a regtest node (120 blocks, mock clock) with 1-3 waiter threads each calling BlockTemplate::waitNext 6 times with "
         "random timeout {0..30 min} and fee threshold {none, 0, 1, .., 2e6 sat}, a miner thread connecting 2-5 blocks built from "
         "createNewBlock, a submitter adding 6-20 fee-paying transactions, an interrupter calling interruptWait() on the waiters' "
-        "current template objects, a clock thread stepping mock time (occasionally by > 20 min); seeded yields/sleeps between the "
+        "current template objects, a clock thread stepping mock time (fast, occasionally by > 20 min; in a third of the cases about as slow as real time); seeded yields/sleeps between the "
         "actions, process pinned to 1/2/16 CPUs. Every wait is an evaluation; a distinct non-trivial case is a wait that overlapped at "
         "least one other driver action, described by (outcome class, timeout, threshold, kinds of overlapping actions).")
 ASSUMPTIONS = [
@@ -20,13 +20,13 @@ ASSUMPTIONS = [
     "the chain only grows in this workload (no reorg), so 'older tip' is decided by position in the miner's history",
 ]
 REQUIRED = ["tip_change_return", "fee_return", "timeout_null", "interrupt_null", "min_difficulty_return", "waits", "tsan_clean_runs",
-            "sticky_interrupt_consumed", "stale_template_at_call"]
+            "sticky_interrupt_consumed", "stale_template_at_call", "slow_clock_cases"]
 MAX_MONEY = 21000000 * 100000000
 INCONCLUSIVE_REASONS = ("inconclusive-not-best-prevblk",)
 
 
 def runs(tier, seed):
-    n = 1200 if tier == "thorough" else 14
+    n = 900 if tier == "thorough" else 10
     to = 3000 if tier == "thorough" else 1200
     return [
         Run("c65_waitnext", cases=n, flavour="tsan", name="waitnext-tsan", params={"waits": 6}, timeout=to),
@@ -56,6 +56,8 @@ def check_case(case, evs, st):
         st.violation("harness-trace-malformed", "first record is not init", None, case)
         return
     min_diff_chain = init["min_difficulty_chain"]
+    if init.get("slow_clock"):
+        st.seen("slow_clock_cases")
     # ---- tip history: tips[i] = (hash, begin_lc, end_lc, block_time) ; transition into tip i happened inside (begin, end)
     tips = [(init["tip"], -1, -1, init["tip_time"])]
     idx = {init["tip"]: 0}
